@@ -290,3 +290,9 @@ CHECKS["C05"].update(
 CHECKS["C04"].update(
     technique=CHECKS["C04"]["technique"] + "; Verus contract on the extracted token-level DataSetWriter::write (delimiters emitted exactly for undefined-length containers; fragments vs data set items)",
     note=CHECKS["C04"]["note"] + " The token-level writer DataSetWriter::write is under contract per call (C04.dataset_writer; write_impl abstract); the balance of a whole token stream is the induction over calls and is not machine-composed.")
+CHECKS["C05"].update(
+    technique=CHECKS["C05"]["technique"] + "; child-process runs for the aborts that cannot be caught in-process (stack overflow, failed allocation)",
+    note=CHECKS["C05"]["note"] + " The 'never aborts' clause is exercised by the native units C05.depth (nesting depth, fixed 8 MiB stack) and C05.alloc "
+         "(huge declared lengths / image attributes under a 1 GiB address space), each case in a child process; they reproduce two KNOWN FINDINGS that are "
+         "recorded, not repaired (known_findings.txt: S24 eager reader recursion, S25 value buffers allocated from the declared length): the check prints one "
+         "KNOWN-FINDING line for each and exits 0; any other dead child is a VIOLATION.")
